@@ -13,7 +13,7 @@ BIAS = {"fair_after": [None, 0, 2, 3, 5, 8], "throttled": True, "max_polls": 12,
 # exhaustive tiny scope: at every poll a cancel request may arrive and every queried job is
 # absent / FINISHED / FAILED / TIMEDOUT / HWFAILURE / CANCELLED -- every verdict branch
 # (FINISHED, FAILURE, CANCELLED by request, CANCELLED by report) on every tiny graph
-TINY = {"depth_quick": 3, "depth_thorough": 4, "graphs_quick": 3,
+TINY = {"depth_quick": 3, "depth_thorough": 4, "graphs_quick": 6,
         "cfgs": [{"throttle": 0, "attempts": 1, "dry": False}, {"throttle": 1, "attempts": 1, "dry": False}],
         "enum": {"q": False, "cancel": True, "subs": False,
                  "kinds": ["absent", "FINISHED", "FAILED", "TIMEDOUT", "HWFAILURE", "CANCELLED"]},
